@@ -284,7 +284,7 @@ var zxHavingCases = []zxHavingCase{
 // C08.H — HAVING keeps exactly the rows of the HAVING-free query whose reported values satisfy
 // the predicate, with the same values and without the helper column.
 //
-//zx:harness prop=C08 id=C08.H tier=quick mode=real shard=case:7,x0:2 R=2 quick.ny=2 quick.nperiods=1 thorough.R=3 thorough.ny=3 thorough.nperiods=2 thorough.shard=case:7,x0:2,y0:3
+//zx:harness prop=C08 id=C08.H tier=quick mode=real shard=case:7,x0:2 R=2 quick.ny=2 quick.nperiods=1 thorough.R=3 thorough.ny=2 thorough.nperiods=2 thorough.shard=case:7,x0:2,y0:2
 func zxC08Having() {
 	c := zxHavingCases[vrtShape("case", len(zxHavingCases))]
 	periods := vrtShape("periods", vrtParam("nperiods", 2)) + 3 - vrtParam("nperiods", 2)
